@@ -59,3 +59,41 @@ pub fn properties() -> Vec<Property> {
         p20_endian::property(),
     ]
 }
+
+/// Entry point of the libFuzzer targets (/verif/fuzz): run one tape of one sub-check. An oracle
+/// failure writes a replay file and aborts, so that libFuzzer records the input as a crash.
+pub fn fuzz_entry(prop: &str, sub: &str, data: &[u8]) {
+    use std::sync::OnceLock;
+    static TABLE: OnceLock<Vec<(String, String, engine::RunFn)>> = OnceLock::new();
+    let table = TABLE.get_or_init(|| {
+        engine::install_panic_hook();
+        let mut v = Vec::new();
+        for p in properties() {
+            for sc in p.subchecks {
+                v.push((p.id.to_string(), sc.name.to_string(), sc.run));
+            }
+        }
+        v
+    });
+    let run = match table.iter().find(|e| e.0 == prop && e.1 == sub) {
+        Some(e) => e.2,
+        None => panic!("unknown fuzz target {}/{}", prop, sub),
+    };
+    let words: Vec<u64> = data.chunks(8).map(|c| {
+        let mut b = [0u8; 8];
+        b[..c.len()].copy_from_slice(c);
+        u64::from_le_bytes(b)
+    }).collect();
+    let (r, cx, _) = engine::exec_once(run, &words, false, false, &[], engine::Tier::Thorough);
+    let _ = cx;
+    if let Err(m) = r {
+        if m.starts_with("HARNESS-PANIC") {
+            return;
+        }
+        let (_, vcx, _) = engine::exec_once(run, &words, false, true, &[], engine::Tier::Thorough);
+        let dir = std::env::var("VMV_REPLAY_DIR").unwrap_or_else(|_| "/verif/replays".into());
+        let path = engine::write_replay(&dir, prop, sub, false, &words, &m, &vcx.desc);
+        eprintln!("FUZZ-FAILURE property={} subcheck={} replay={}\n{}", prop, sub, path, m);
+        std::process::abort();
+    }
+}
